@@ -44,6 +44,8 @@ CONDS = [
     # other containers on the right of `in`: a string (substring test!), list, set, dict (keys), frozenset, range
     ("x in 'ab'", "str", None), ("x not in 'ab'", "str", None), ("x in [1, 2]", "Literal[1, 2]", [1, 2]), ("x in {1, 'a'}", "Literal[1, 'a']", [1, "a"]),
     ("x not in {'a': 1, None: 2}", "Optional[Literal['a']]", ["a", None]), ("x in frozenset({1, None})", "Optional[Literal[1]]", [1, None]), ("x in range(2)", "Literal[0, 1]", [0, 1]),
+    # ordering comparisons with a constant, the constant on either side
+    ("x > 1", None, None), ("1 < x", None, None), ("x <= 1", None, None), ("1 >= x", None, None), ("0 < x", None, None), ("x < 1.5", None, None),
     ("x", None, None), ("not x", None, None), ("bool(x)", None, None),
     ("len(x) == 0", None, None), ("len(x) == 1", None, None), ("len(x) == 2", None, None), ("len(x) != 0", None, None), ("len(x) != 1", None, None),
     ("len(x) > 1", None, None), ("len(x) >= 1", None, None), ("len(x) < 2", None, None), ("len(x) <= 1", None, None), ("len(x) > 0", None, None),
